@@ -5,7 +5,10 @@ import itertools
 import json
 import random
 
+import lsst.daf.relation as dr
+
 import core
+import enc
 import gen
 import iterprog as ip
 from c05 import count_un, n_ops
@@ -133,6 +136,58 @@ def dedup_over_chain_of_dedups(rng, n):
     return out
 
 
+def mixed_value_checks():
+    """The integer model says nothing about other value types, so this part is judged in Python: selections, calculations
+    and sorts whose operands mix int, float, Fraction and bool values (columns and literals) must give what Python's own
+    operators give on the same values — a direct evaluation of the applied operation."""
+    import operator
+    from fractions import Fraction
+    from lsst.daf.relation import iteration
+    E = dr.ColumnExpression
+    eng = iteration.Engine(name="mv")
+    a, f, out = enc.K(1), enc.N(1), enc.N(2)
+    rows = [{a: 1, f: 0.5}, {a: 2, f: 2.5}, {a: 3, f: 2.5}, {a: 4, f: 9.0}, {a: 2, f: 2.0}]
+    leaf = eng.make_leaf({a, f}, payload=iteration.RowSequence([dict(r) for r in rows]), name="mv_leaf")
+    operands = [("a", E.reference(a), lambda r: r[a]), ("f", E.reference(f), lambda r: r[f]), ("2", E.literal(2), lambda r: 2),
+                ("2.5", E.literal(2.5), lambda r: 2.5), ("Fraction(5,2)", E.literal(Fraction(5, 2)), lambda r: Fraction(5, 2)),
+                ("True", E.literal(True), lambda r: True)]
+    bad, n = [], 0
+
+    def show(rs):
+        return [{str(k): (v if isinstance(v, (int, float, bool)) else repr(v)) for k, v in r.items()} for r in rs]
+
+    def compare(what, rel_of, expected):
+        nonlocal n
+        n += 1
+        try:
+            got = list(eng.execute(rel_of()))
+        except Exception as e:  # noqa: BLE001
+            got = None
+            bad.append({"operation": what, "problem": f"raised {type(e).__name__}: {e}"})
+            return
+        same = got == expected and all(type(g.get(k)) is type(x.get(k)) for g, x in zip(got, expected) for k in x)
+        if not same:
+            bad.append({"operation": what, "leaf_rows": show(rows), "library": show(got), "direct_evaluation": show(expected)})
+    for nx, ex, px in operands:
+        for ny, ey, py in operands:
+            if nx[0] not in "af" and ny[0] not in "af":
+                continue
+            for name in ("eq", "ne", "lt", "le", "gt", "ge"):
+                fn = getattr(operator, name)
+                compare(f"selection {nx} {name} {ny}", lambda: leaf.with_rows_satisfying(getattr(ex, name)(ey)),
+                        [r for r in rows if fn(px(r), py(r))])
+            for name in ("add", "sub", "mul"):
+                fn = getattr(operator, name)
+                meth = f"__{name}__"
+                compare(f"calculation {nx} {name} {ny}", lambda: leaf.with_calculated_column(out, ex.method(meth, ey)),
+                        [{**r, out: fn(px(r), py(r))} for r in rows])
+                compare(f"sort by -({nx} {name} {ny})", lambda: leaf.sorted([dr.SortTerm(ex.method(meth, ey), ascending=False)]),
+                        sorted(rows, key=lambda r: fn(px(r), py(r)), reverse=True))
+        if nx[0] in "af":
+            compare(f"calculation neg {nx}", lambda: leaf.with_calculated_column(out, ex.method("__neg__")), [{**r, out: -px(r)} for r in rows])
+    return n, bad
+
+
 def make_cases(rng, tier):
     progs = []
     progs += exhaustive_programs(2 if tier == "quick" else 3)
@@ -165,7 +220,10 @@ def run(ctx):
         found |= ctx.failing_case({"kind": "execute-raised", "case": c["json"]}, None)
     for c in sorted([c for c in cases if c["repeat_differs"]], key=lambda c: len(json.dumps(c["json"])))[:2]:
         found |= ctx.failing_case({"kind": "second-execution-of-the-same-relation-gave-other-rows", "case": c["json"]}, None)
-    summ = core.judge(ctx, cases, FULL_HDR, "check_iter", SPEC_HDR, "check_spec", model_v="Model/CheckIter.v")
+    n_mixed, mixed_bad = mixed_value_checks()
+    for b in mixed_bad[:2]:
+        found |= ctx.failing_case({"kind": "values-of-mixed-numeric-types", "case": b}, None)
+    summ = core.judge(ctx, cases, FULL_HDR, "check_iter", SPEC_HDR, "check_spec", model_v="Model/CheckIter.v", found_elsewhere=found)
     found |= summ["spec_failures"] > 0
     core.conclude_s1(ctx, s1, found or bool(ctx.violations))
     distinct = {c["key"] for c in cases if c["nontrivial"]}
@@ -177,6 +235,7 @@ def run(ctx):
                 "operation menu; non-trivial = at least two operations or a merge/elision fired; distinct = program text",
         "traces_validated_against_impl": summ["evaluated"], "judgement": summ,
         "rejected_at_construction": sum(1 for c in cases if c["raised"]),
+        "mixed_numeric_type_operations_compared_with_python": n_mixed,
         "samples": [cases[40]["json"]["program"], cases[-1]["json"]["program"]],
     })
     ctx.assumptions += ["deduplication is judged only where rows agreeing on key columns are equal (documented "
